@@ -844,6 +844,13 @@ def nontrivial(case):
     return bool(case['opts'] or case['dict'] or case['script'] or (case['rc'] and (case['rc']['sects'] or case['rc']['defaults'])))
 
 
+def empty_key(case):
+    for item in case['opts'] or []:
+        if item.count('=') == 1 and item.split('=')[0].count('.') == 1 and not item.split('=')[0].split('.')[1].strip():
+            return True
+    return False
+
+
 def first_diff(a, b):
     i = 0
     while i < min(len(a), len(b)) and a[i] == b[i]:
@@ -884,6 +891,11 @@ def check_cases(ctx, cases, work):
             ctx.count('update_raised')
         if obs.get('construct_err', ('',))[0].startswith('Other-'):
             ctx.count('out_of_model_exception')      # raised by a model class that uses the value, not by Config
+        elif empty_key(case):
+            # an empty field name is written as a continuation line by configparser.write: file syntax, not modelled
+            ctx.count('out_of_model_empty_key')
+            if impl.split(' V=')[0] != model.split(' V=')[0]:
+                ctx.disagree('config', case, *first_diff(impl, model))
         elif impl != model:
             ctx.disagree('config', case, *first_diff(impl, model))
         for key, what in oracle(case, obs):
